@@ -11,14 +11,14 @@ import (
 )
 
 type propDef struct {
-	id       string
-	level    string
-	explain  string
-	notDec   string
-	trusted  []string
-	assume   []string
-	run      func(r *Run, p *Prog)
-	perCfg   bool // run under every configuration of the tier (otherwise linux/amd64 only)
+	id      string
+	level   string
+	explain string
+	notDec  string
+	trusted []string
+	assume  []string
+	run     func(r *Run, p *Prog)
+	perCfg  bool // run under every configuration of the tier (otherwise linux/amd64 only)
 }
 
 var registry = map[string]*propDef{}
